@@ -21,6 +21,9 @@ rule("C03.b", "per row letter the constraint uses the documented relation (U <=,
               "right-hand side are subset by the same row mask", floor=8)
 rule("C01.c", "nodal rows (letter N) are translated as equalities by every interface", floor=2)
 rule("C03.c", "variable bounds reach the solver in the right direction; objective sign and optimisation direction agree", floor=4)
+rule("C03.l", "the vector that collects solver results is real-valued by construction: it is created as float (np.zeros(n) / np.array([]) + "
+              "hstack) - not with empty_like / zeros_like / full_like of problem data, which inherits the data's dtype (integer costs: every "
+              "solution written into it is truncated, the returned point violates its rows and is not optimal)", floor=1, props=["C03", "C14"])
 rule("C18.e", "sign of the reported nodal price: the report negates the dual of the nodal rows written as `A_N x == b_N` in a maximisation of "
               "-c'x. The four signs belong together - orientation of the equality (cvxpy's dual belongs to lhs - rhs), sign of c in the objective, "
               "direction of optimisation, sign in the report: their product is what it is on the confirmed tree; a single flip reports the negative "
@@ -28,7 +31,7 @@ rule("C18.e", "sign of the reported nodal price: the report negates the dual of 
 rule("C03.k", "rows of a mapping that come from assets without boolean variables carry NaN in the 'bool' column (frames are concatenated): "
               "the flags are read by comparison with True (or after fillna(False)) - never through a bare cast astype(bool) / bool(), for which NaN "
               "is True: continuous variables would be declared boolean (restricted to {0, 1}) and success reported for a point that is not optimal",
-     floor=1, props=["C03", "C15"])
+     floor=1, props=["C03", "C15", "C17"])
 rule("C18.d", "the duals that are reported belong to the objective -c'x as stated: the objective given to the solver is not re-scaled - or every "
               "dual value is scaled back with the same factor (the value is; a dual of a problem whose objective was divided by k is the "
               "marginal value divided by k)", floor=1)
@@ -260,7 +263,7 @@ def _stmts_in(body):
     return list(au.walk_stmts(body))
 
 
-@analysis("translation", ["C03.a", "C03.b", "C01.c", "C03.c", "C03.d", "C03.e", "C03.i", "C03.j", "C14.m", "C18.d", "C03.k", "C18.e"])
+@analysis("translation", ["C03.a", "C03.b", "C01.c", "C03.c", "C03.d", "C03.e", "C03.i", "C03.j", "C14.m", "C18.d", "C03.k", "C18.e", "C03.l"])
 def run(ctx):
     p = ctx.p
     opt = p.cls("OptimProblem").methods.get("optimize")
@@ -554,6 +557,31 @@ def run(ctx):
                            "the returned vector violates bounds and rows, its value is not -c'x and the reported nodal balance is off (fuel for "
                            "on = 0.15 is delivered, the report says 0)" % ", ".join(sorted(work)), node=n,
                            key="flags are read from the working copy: %s" % au.short(base, 30))
+
+    # ================================================================== C03.l result vectors are float
+    n_l = 0
+    for cname in ("OptimProblem", "SplitOptimProblem"):
+        ci = p.classes.get(cname)
+        of = ci.methods.get("optimize") if ci is not None else None
+        if of is None:
+            continue
+        for st in au.walk_stmts(of.body):
+            for c in au.walk_own(st):
+                if isinstance(c, ast.Call) and isinstance(c.func, ast.Name) and c.func.id == "Results":
+                    xa = au.arg_or_kw(c, 1, "x")
+                    if xa is None:
+                        continue
+                    n_l += 1
+                    xr = ctx.resolve(of, xa, st)
+                    like = [y for y in au.walk_local(xr) if isinstance(y, ast.Call) and (au.method_name(y) or "").endswith("_like")
+                            and au.kwarg(y, "dtype") is None]
+                    ctx.ob("C03.l", of, "x of %s" % au.short(c, 50), not like,
+                           "the result vector is created with %s: it takes the dtype of the problem data - with integer cost coefficients every "
+                           "solution written into it is truncated (1.9999999 -> 1, 0.5 -> 0): the returned point violates equality rows, value != "
+                           "-c'x, and it is not optimal (4.0 where 8.75 is attainable)" % (au.short(like[0], 40) if like else ""), node=c,
+                           ok_detail="no dtype inherited from problem data")
+    if n_l == 0:
+        ctx.ob("C03.l", "optimization", "result vectors", None, "no Results(...) construction found")
 
     # ================================================================== C03.k NaN is not a flag
     n_k = 0
